@@ -228,13 +228,15 @@ func c17RunScenario(r *evid.Run, st *Stats, ops []c17Op, sc c17Scenario, bound i
 	// every execution starts from the package-level state the process had at start-up:
 	// lazily built package-level caches are cold again (c17Worker took the snapshot)
 	restoreGlobals()
-	fx := newC17Fix()
-	// sequential baseline of each operation
+	// sequential baseline of each operation, computed on fixtures of its own: the shared fixtures must be
+	// untouched (first use) when the threads start
+	fxBase := newC17Fix()
 	base := make([]string, len(sc.ops))
 	for i, oi := range sc.ops {
-		base[i] = ops[oi].run(fx)
+		base[i] = ops[oi].run(fxBase)
 	}
 	restoreGlobals()
+	fx := newC17Fix()
 	shared := fx.shared()
 	snaps := make([]*deephash.Snapshot, len(shared))
 	for i, s := range shared {
